@@ -1,6 +1,8 @@
 """G7 — the checkpoint protocol as written in /repo's current source (Python `ast` only).
 
-Emits lean/TempestVerif/Gen/Checkpoint.lean:
+Emits lean/TempestVerif/Gen/CheckpointSM.lean (`generate_sm`): StateManager.save_state's operation sequence
+(`stateManagerSave`, temp name by `with_suffix`), the pickled dictionary / `exclude` handling, load_state's and
+from_dict's shape — and lean/TempestVerif/Gen/Checkpoint.lean (`generate`):
   * SamplerCore.save_sampler_state: the ordered file-affecting calls abstracted to the `Model.FS.FsOpOf Unit`
     alphabet with symbolic paths "dir" / "tmp" / "final" (which name is opened for writing, dill.dump, f.flush,
     os.fsync, end of the `with` = close, os.replace / os.rename and its two names), and the shape of the pool
@@ -61,12 +63,16 @@ class _SaveWalker:
     FILE_FUNCS = {"os.remove", "os.unlink", "os.truncate", "os.link", "os.symlink", "shutil.move", "shutil.copy",
                   "shutil.copyfile", "shutil.copy2", "os.write", "os.open", "os.rmdir", "os.makedirs"}
 
-    def __init__(self, fn):
+    def __init__(self, fn, expected_args=("self", "path")):
         args = [a.arg for a in fn.args.args]
-        if args != ["self", "path"]:
-            raise Unavailable(f"save_sampler_state signature {args}")
+        if args != list(expected_args):
+            raise Unavailable(f"{fn.name} signature {args}")
+        self.fn_name = fn.name
         self.paths = {"path": "final"}
         self.tmp_expr = None
+        self.tmp_kind = ""        # how the temporary name is derived from the final one
+        self.tmp_suffix = ""
+        self.mkdir_parents = False
         self.files = {}
         self.ops = []
         self.rename_call = None
@@ -94,12 +100,35 @@ class _SaveWalker:
                     if base != "final":
                         raise Unavailable("temporary name derived from something else than `path`")
                     self.tmp_expr = ast.unparse(node)
+                    self.tmp_kind, self.tmp_suffix = "append", suffix
                     return "final" if suffix == "" else "tmp"
+            # x.with_suffix("<const>")   (REPLACES the suffix of the last component: the shape StateManager.save_state had
+            # before /repo b1898a0 — recognised so that the obligation `smTmpNameKind = "append"` breaks visibly)
+            if isinstance(node.func, ast.Attribute) and node.func.attr == "with_suffix" and len(node.args) == 1 \
+                    and not node.keywords and _const_str(node.args[0]) is not None:
+                base = self.path_of(node.func.value)
+                suffix = _const_str(node.args[0])
+                if base != "final":
+                    raise Unavailable("temporary name derived from something else than `path`")
+                if not (suffix.startswith(".") and len(suffix) > 1 and "/" not in suffix):
+                    raise Unavailable(f"with_suffix({suffix!r}): not a proper suffix")
+                self.tmp_expr = ast.unparse(node)
+                self.tmp_kind, self.tmp_suffix = "replace_suffix", suffix
+                return "tmp"          # distinct from the final name unless the final name already has this suffix
         raise Unavailable(f"unrecognised path expression `{ast.unparse(node)}`")
 
     def call(self, node):
         """file effect of one call expression (None = no effect on files)"""
         f = _name(node.func)
+        if f is None and isinstance(node.func, ast.Attribute) and node.func.attr == "mkdir" \
+                and isinstance(node.func.value, ast.Attribute) and node.func.value.attr == "parent":
+            # Path(path).parent.mkdir(...)
+            if self.path_of(node.func.value.value) != "final":
+                raise Unavailable("mkdir on the parent of something else than `path`")
+            self.mkdir_parents = any(kw.arg == "parents" and isinstance(kw.value, ast.Constant) and kw.value.value is True
+                                     for kw in node.keywords)
+            self.ops.append(("mkdir", "dir"))
+            return
         if f is None:
             # e.g. path.parent.mkdir is a Name chain, so this is something like foo().bar()
             if any(isinstance(s, ast.Call) and _name(s.func) in ("open",) for s in ast.walk(node)):
@@ -110,6 +139,8 @@ class _SaveWalker:
         if f.endswith(".mkdir"):
             base = f[: -len(".mkdir")]
             if base.endswith(".parent") and self.paths.get(base[: -len(".parent")]) == "final":
+                self.mkdir_parents = any(kw.arg == "parents" and isinstance(kw.value, ast.Constant) and kw.value.value is True
+                                         for kw in node.keywords)
                 self.ops.append(("mkdir", "dir"))
                 return
             raise Unavailable(f"mkdir on `{base}`")
@@ -167,8 +198,14 @@ class _SaveWalker:
         """calls of an expression in evaluation order (inner first is irrelevant here: one effect per statement)"""
         calls = [c for c in ast.walk(node) if isinstance(c, ast.Call)]
         calls.sort(key=lambda c: (c.end_lineno, c.end_col_offset))
+        # calls that only build a path value (Path(path), Path(path).parent) are part of a recognised outer call
+        inner = set()
         for c in calls:
-            self.call(c)
+            if isinstance(c.func, ast.Attribute) and c.func.attr == "mkdir":
+                inner.update(id(x) for x in ast.walk(c.func.value) if isinstance(x, ast.Call))
+        for c in calls:
+            if id(c) not in inner:
+                self.call(c)
 
     def stmts(self, body):
         for s in body:
@@ -236,7 +273,15 @@ class _SaveWalker:
             if len(self.ops) != before:
                 raise Unavailable("conditional file operations")
             return
-        raise Unavailable(f"statement `{type(s).__name__}` in save_sampler_state")
+        if isinstance(s, ast.For):
+            before = len(self.ops)
+            self.expr_calls(s.iter)
+            self.stmts(s.body)
+            self.stmts(s.orelse)
+            if len(self.ops) != before:
+                raise Unavailable("file operations inside a loop")
+            return
+        raise Unavailable(f"statement `{type(s).__name__}` in {self.fn_name}")
 
 
 def _is_setattr_pool(stmt, value_pred):
@@ -431,12 +476,110 @@ def extract():
     w.stmts(sv.body)
     if w.files:
         raise Unavailable("file left open")
-    t = {"saveOps": w.ops, "tmpNameExpr": w.tmp_expr or "", "renameCall": w.rename_call or ""}
+    t = {"saveOps": w.ops, "tmpNameExpr": w.tmp_expr or "", "renameCall": w.rename_call or "",
+         "tmpNameKind": w.tmp_kind, "tmpSuffix": w.tmp_suffix}
     det, re, plain = _pool_shape(sv)
     t.update(poolDetached=det, poolReattachInFinally=re, poolPlainBranch=plain)
     method, dropped, table, loop_ok = _load_shape(_find_func(core, "SamplerCore", "load_sampler_state"))
     t.update(loadMethod=method, loadResultDropped=dropped, defaults=table, defaultsLoopShape=loop_ok)
     t.update(_cadence(core))
+    return t
+
+
+# ------------------------------------------------------------------ StateManager.save_state / load_state / from_dict
+def _body_src(fn):
+    """unparsed statements of a function body without its docstring"""
+    body = fn.body
+    if body and isinstance(body[0], ast.Expr) and isinstance(body[0].value, ast.Constant) and isinstance(body[0].value.value, str):
+        body = body[1:]
+    return [ast.unparse(b) for b in body], body
+
+
+def extract_sm():
+    sm = _parse("tempest/state_manager.py")
+    sv = _find_func(sm, "StateManager", "save_state")
+    w = _SaveWalker(sv, ("self", "path", "exclude"))
+    w.stmts(sv.body)
+    if w.files:
+        raise Unavailable("file left open")
+    t = {"stateManagerSave": w.ops, "smTmpNameExpr": w.tmp_expr or "", "smTmpNameKind": w.tmp_kind, "smTmpSuffix": w.tmp_suffix,
+         "smRenameCall": w.rename_call or "", "smMkdirParents": w.mkdir_parents}
+    # the pickled dictionary, the default of `exclude`, the exclusion loop
+    src, body = _body_src(sv)
+    keys = vals = None
+    dict_var = None
+    for b in body:
+        if isinstance(b, ast.Assign) and len(b.targets) == 1 and isinstance(b.targets[0], ast.Name) and isinstance(b.value, ast.Dict):
+            keys = [_const_str(k) for k in b.value.keys]
+            vals = [ast.unparse(v) for v in b.value.values]
+            dict_var = b.targets[0].id
+    if keys is None or None in keys:
+        raise Unavailable("save_state: no literal dictionary is built")
+    dumped = [c for c in ast.walk(sv) if isinstance(c, ast.Call) and _name(c.func) in ("dill.dump", "pickle.dump")]
+    if len(dumped) != 1:
+        raise Unavailable("save_state: not exactly one dump()")
+    obj = dumped[0].args[0] if dumped[0].args else next((kw.value for kw in dumped[0].keywords if kw.arg == "obj"), None)
+    if obj is None or _name(obj) != dict_var:
+        raise Unavailable("save_state: dump() of something else than the literal dictionary")
+    t["smDictKeys"] = keys
+    t["smDictValuesOk"] = dict(zip(keys, vals)) == {"_current": "self._current", "_history": "self._history", "n_dim": "self.n_dim"}
+    default_ex = None
+    for b in body:
+        if isinstance(b, ast.If) and ast.unparse(b.test) == "exclude is None" and len(b.body) == 1 and not b.orelse \
+                and isinstance(b.body[0], ast.Assign) and ast.unparse(b.body[0].targets[0]) == "exclude" \
+                and isinstance(b.body[0].value, ast.List):
+            default_ex = [_const_str(e) for e in b.body[0].value.elts]
+    if default_ex is None or None in default_ex:
+        raise Unavailable("save_state: default of `exclude` not a literal list")
+    t["smExcludeDefault"] = default_ex
+    t["smExcludeLoopShape"] = any(isinstance(b, ast.For) and ast.unparse(b) == f"for key in exclude:\n    {dict_var}.pop(key, None)" for b in body)
+    # load_state
+    ld = _find_func(sm, "StateManager", "load_state")
+    lsrc, lbody = _body_src(ld)
+    loaded = None
+    for node in ast.walk(ld):
+        if isinstance(node, ast.Assign) and len(node.targets) == 1 and isinstance(node.targets[0], ast.Name) \
+                and isinstance(node.value, ast.Call) and _name(node.value.func) in ("dill.load", "pickle.load"):
+            loaded = node.targets[0].id
+    if loaded is None:
+        raise Unavailable("load_state: no `<name> = dill.load(...)`")
+    methods = [(_name(c.func), isinstance(stmt, ast.Expr)) for stmt in ast.walk(ld) if isinstance(stmt, (ast.Expr, ast.Assign))
+               and isinstance(stmt.value, ast.Call) for c in [stmt.value]
+               if _name(c.func) and _name(c.func).startswith("self.") and len(c.args) == 1 and _name(c.args[0]) == loaded]
+    if len(methods) != 1:
+        raise Unavailable("load_state: the loaded dictionary is not handed to exactly one method of self")
+    t["smLoadMethod"] = methods[0][0][len("self."):]
+    t["smLoadShape"] = len(lbody) == 2 and isinstance(lbody[0], ast.With) and lsrc[1] == f"self.update_from_dict({loaded})"
+    # from_dict
+    fd = _find_func(sm, "StateManager", "from_dict")
+    fsrc, _ = _body_src(fd)
+    arg = fd.args.args[1].arg if len(fd.args.args) == 2 else None
+    t["fromDictViaUpdate"] = fsrc == [f"n_dim = {arg}.get('n_dim', 1)", "instance = cls(n_dim)",
+                                      f"instance.update_from_dict({arg})", "return instance"]
+    ndef = None
+    for node in ast.walk(fd):
+        if isinstance(node, ast.Call) and isinstance(node.func, ast.Attribute) and node.func.attr == "get" and len(node.args) == 2 \
+                and _const_str(node.args[0]) == "n_dim" and isinstance(node.args[1], ast.Constant) and isinstance(node.args[1].value, int):
+            ndef = node.args[1].value
+    if ndef is None or ndef < 0:
+        raise Unavailable("from_dict: default of n_dim not found")
+    t["fromDictDefaultNDim"] = ndef
+    # update_from_dict: three guarded sections
+    ud = _find_func(sm, "StateManager", "update_from_dict")
+    _, ubody = _body_src(ud)
+    sect = {}
+    for b in ubody:
+        if isinstance(b, ast.If) and not b.orelse and len(b.body) == 1:
+            test = ast.unparse(b.test)
+            stmt = ast.unparse(b.body[0])
+            arg_u = ud.args.args[1].arg
+            if test == f"'_current' in {arg_u}" and stmt.startswith("self._current.update("):
+                sect["_current"] = True
+            elif test == f"'_history' in {arg_u}" and stmt.startswith("self._history.update("):
+                sect["_history"] = True
+            elif test == f"'n_dim' in {arg_u}" and stmt == f"self.n_dim = {arg_u}['n_dim']":
+                sect["n_dim"] = True
+    t["updateFromDictShape"] = set(sect) == {"_current", "_history", "n_dim"}
     return t
 
 
@@ -473,6 +616,8 @@ def render(t):
          "def saveOps : List (Model.FS.FsOpOf Unit) := [" + ", ".join(_lop(o) for o in t["saveOps"]) + "]",
          f"def tmpNameExpr : String := {_lstr(t['tmpNameExpr'])}",
          f"def renameCall : String := {_lstr(t['renameCall'])}",
+         f"def tmpNameKind : String := {_lstr(t['tmpNameKind'])}",
+         f"def tmpSuffix : String := {_lstr(t['tmpSuffix'])}",
          f"def poolDetached : Bool := {_lbool(t['poolDetached'])}",
          f"def poolReattachInFinally : Bool := {_lbool(t['poolReattachInFinally'])}",
          f"def poolPlainBranch : Bool := {_lbool(t['poolPlainBranch'])}",
@@ -494,6 +639,47 @@ def render(t):
     return "\n".join(L)
 
 
+def render_sm(t):
+    lst = lambda xs: "[" + ", ".join(_lstr(x) for x in xs) + "]"  # noqa: E731
+    L = ["import TempestVerif.Model.FS",
+         "/- GENERATED by translate/g7_checkpoint.py from /repo's current tempest/state_manager.py — do not edit. -/",
+         "namespace Gen.Checkpoint", "",
+         "def stateManagerSave : List (Model.FS.FsOpOf Unit) := [" + ", ".join(_lop(o) for o in t["stateManagerSave"]) + "]",
+         f"def smTmpNameExpr : String := {_lstr(t['smTmpNameExpr'])}",
+         f"def smTmpNameKind : String := {_lstr(t['smTmpNameKind'])}",
+         f"def smTmpSuffix : String := {_lstr(t['smTmpSuffix'])}",
+         f"def smRenameCall : String := {_lstr(t['smRenameCall'])}",
+         f"def smMkdirParents : Bool := {_lbool(t['smMkdirParents'])}",
+         f"def smDictKeys : List String := {lst(t['smDictKeys'])}",
+         f"def smDictValuesOk : Bool := {_lbool(t['smDictValuesOk'])}",
+         f"def smExcludeDefault : List String := {lst(t['smExcludeDefault'])}",
+         f"def smExcludeLoopShape : Bool := {_lbool(t['smExcludeLoopShape'])}",
+         f"def smLoadMethod : String := {_lstr(t['smLoadMethod'])}",
+         f"def smLoadShape : Bool := {_lbool(t['smLoadShape'])}",
+         f"def fromDictViaUpdate : Bool := {_lbool(t['fromDictViaUpdate'])}",
+         f"def fromDictDefaultNDim : Nat := {t['fromDictDefaultNDim']}",
+         f"def updateFromDictShape : Bool := {_lbool(t['updateFromDictShape'])}",
+         "", "end Gen.Checkpoint", ""]
+    return "\n".join(L)
+
+
+NAME_SM = "G7-state-manager-io"
+
+
+def generate_sm():
+    """second generated file: the StateManager's own save_state / load_state / from_dict"""
+    try:
+        t = extract_sm()
+    except Unavailable as e:
+        return (NAME_SM, "unavailable", str(e))
+    except (SyntaxError, OSError) as e:
+        return (NAME_SM, "unavailable", f"{type(e).__name__}: {e}")
+    changed = common.write_if_changed(os.path.join(common.GEN, "CheckpointSM.lean"), render_sm(t))
+    ops = ";".join(":".join(o) for o in t["stateManagerSave"])
+    return (NAME_SM, "ok", f"{'re' if changed else ''}generated Gen/CheckpointSM.lean (StateManager.save_state ops {ops}; temp name "
+                           f"{t['smTmpNameKind']}({t['smTmpSuffix']!r}); load via {t['smLoadMethod']}; from_dict via update: {t['fromDictViaUpdate']})")
+
+
 def generate():
     try:
         t = extract()
@@ -511,3 +697,5 @@ if __name__ == "__main__":
     import json
     print(json.dumps(extract(), indent=1))
     print(generate())
+    print(json.dumps(extract_sm(), indent=1))
+    print(generate_sm())
